@@ -1,4 +1,4 @@
-CONSTANTS N = 3 RemoveOnFailure = TRUE
+CONSTANTS N = 3 CleanupAfterLoop = FALSE
 SPECIFICATION Spec
-INVARIANT RegistryIsLive
+INVARIANT RegistryExact
 CHECK_DEADLOCK FALSE
